@@ -25,7 +25,8 @@ RULE = (
     'routed in this process, in fresh interpreters with PYTHONHASHSEED in {0,1,4242}, by the vendored pinned copy and against '
     'golden/routing.json; a sample is also located physically (which shard directory received the row). (c) pairs of keys '
     'the cache treats as equal must route to one shard for every shard count. non-trivial: (a) >= 2 shards non-empty and '
-    'an aggregate op; (b)/(c) batches containing non-ASCII/out-of-int64/float keys or derived pairs; distinct by SHA-1'
+    'an aggregate op; (d) reset()/reload/attribute reads through two handles per directory, differentially against two handles '
+    'on an unsharded Cache (step results and what every shard persists); non-trivial = a reset over a copy made stale by the other handle; (b)/(c) batches containing non-ASCII/out-of-int64/float keys or derived pairs; distinct by SHA-1'
 )
 ASSUMPTIONS = [
     'history alphabets never contain numeric twins (1 and 1.0): that is the recorded known finding, excluded by construction',
@@ -429,4 +430,81 @@ class AggregatesUnderContention(SubCheck):
             raise Violation('C13/aggregate-total/' + v.signature.split('/', 1)[1], v.detail)
 
 
-SUBCHECKS = [Histories(), Routing(), Golden(), EqualPairs(), AggregatesUnderContention(), JSONDiskRouting()]
+class SettingsTwoHandles(SubCheck):
+    """reset() through two handles on one directory, differentially against two handles on an unsharded Cache: every step
+    returns what the unsharded cache returns, and afterwards every shard's Settings table holds what the unsharded one holds
+    (a handle's in-memory copy may be stale in both; what is persisted may not differ)."""
+
+    name = 'settings_two_handles'
+    VALUES = {
+        'cull_limit': [0, 3, 10],
+        'statistics': [0, 1],
+        'disk_min_file_size': [8, 100, 32768],
+        'eviction_policy': ['least-recently-stored', 'least-recently-used', 'none'],
+    }
+
+    def examples(self, tier):
+        return 25 if tier == 'quick' else 1500
+
+    def strategy(self, tier):
+        key = st.sampled_from(sorted(self.VALUES))
+        h = st.integers(0, 1)
+        step = st.one_of(
+            key.flatmap(lambda k: st.tuples(st.just('reset'), h, st.just(k), st.sampled_from(self.VALUES[k]))),
+            key.flatmap(lambda k: st.tuples(st.just('reset'), h, st.just(k), st.sampled_from(self.VALUES[k]))),
+            st.tuples(st.just('reload'), h, key),
+            st.tuples(st.just('attr'), h, key),
+            st.tuples(st.just('reopen'), h),
+        )
+        return st.fixed_dictionaries({'shards': st.sampled_from(SHARDS), 'steps': st.lists(step, min_size=2, max_size=12)})
+
+    def execute(self, case, env):
+        import diskcache
+
+        shards = case['shards']
+        pf, pc = env.scratch.fresh('sf'), env.scratch.fresh('sc')
+        fan = [diskcache.FanoutCache(pf, shards=shards, timeout=0), diskcache.FanoutCache(pf, shards=shards, timeout=0)]
+        ref = [diskcache.Cache(pc, timeout=0), diskcache.Cache(pc, timeout=0)]
+        last_writer = {}
+        stale = False
+        try:
+            for step in case['steps']:
+                name, h = step[0], step[1]
+                if name == 'reopen':
+                    fan[h].close()
+                    ref[h].close()
+                    fan[h] = diskcache.FanoutCache(pf, shards=shards, timeout=0)
+                    ref[h] = diskcache.Cache(pc, timeout=0)
+                    continue
+                k = step[2]
+                if name == 'reset':
+                    got, want = fan[h].reset(k, step[3]), ref[h].reset(k, step[3])
+                    if k in last_writer and last_writer[k] != h:
+                        stale = True
+                    last_writer[k] = h
+                elif name == 'reload':
+                    got, want = fan[h].reset(k), ref[h].reset(k)
+                else:
+                    got, want = getattr(fan[h], k), getattr(ref[h], k)
+                if got != want:
+                    raise Violation('C13/settings/%s' % name, 'step %r: FanoutCache gives %r, the unsharded cache %r\nsteps %s' % (step, got, want, short(case['steps'], 600)))
+            con = sqlite3.connect(os.path.join(pc, 'cache.db'))
+            want = dict(con.execute('SELECT key, value FROM Settings').fetchall())
+            con.close()
+            for i in range(shards):
+                have, _, _ = shard_settings(pf, i)
+                for k in self.VALUES:
+                    if have[k] != want[k]:
+                        raise Violation(
+                            'C13/settings/persisted',
+                            'after %s: shard %d persists %s = %r, the unsharded cache %r' % (short(case['steps'], 600), i, k, have[k], want[k]),
+                        )
+            return {'nontrivial': stale, 'classes': ['shards=%d' % shards] + (['reset-over-stale-copy'] if stale else [])}
+        finally:
+            for c in fan + ref:
+                c.close()
+            env.scratch.drop(pf)
+            env.scratch.drop(pc)
+
+
+SUBCHECKS = [Histories(), Routing(), Golden(), EqualPairs(), AggregatesUnderContention(), JSONDiskRouting(), SettingsTwoHandles()]
